@@ -18,6 +18,7 @@ RULE = (
     "0..5 x seeds 0..5 x extra_coords); grid_coordinates nodes inside the region; project_region under affine, flipping, monotone "
     "and non-monotone maps; maxabs over tuples of 1..3 vectors with NaNs; every invalid region through every public entry point. "
     "Non-trivial: not an expected-refusal case; distinct = distinct canonical case."
+    " Added axes: NaN coordinates, ndarray regions, every sub-lattice as its own inside() call, far / tiny / float32 forms, non-dyadic grids with many nodes, elongated regions (1e4 ... 1e6 : 1) and far regions for project_region, almost-meshgrid 2-D arrays for get_region, maxabs on 2-D / 3-D arrays."
 )
 ASSUMPTIONS = ["lattices are dyadic so the closed-box predicate is decidable exactly",
                "maxabs(nan=True) on input without any finite value is not compared (result undefined)"]
